@@ -283,7 +283,8 @@ class Geometry(DaeObject):
                         for node in prim.xmlnode.findall(tag('input')):
                             if node.get('semantic') == vinput.get('semantic') and \
                                     node.get('source') == vinput.get('source') and \
-                                    node.get('offset') == vertexnode.get('offset'):
+                                    node.get('offset') == vertexnode.get('offset') and \
+                                    node.get('set') == vertexnode.get('set'):
                                 prim.xmlnode.remove(node)
                                 break
 
